@@ -97,3 +97,25 @@ func ParseAll(src string, f func(lang int, file *syntax.File)) {
 		f(i, file)
 	}
 }
+
+// ParseRecover parses src in every variant with RecoverErrors; only trees that really
+// contain a recovered position are handed over.
+func ParseRecover(src string, f func(lang int, file *syntax.File)) {
+	for i, l := range Langs {
+		p := syntax.NewParser(syntax.KeepComments(true), syntax.Variant(l), syntax.RecoverErrors(8))
+		var file *syntax.File
+		var err error
+		func() {
+			defer func() {
+				if r := recover(); r != nil {
+					file = nil
+				}
+			}()
+			file, err = p.Parse(strings.NewReader(src), "")
+		}()
+		if err != nil || file == nil || !HasRecovered(file) {
+			continue
+		}
+		f(i, file)
+	}
+}
